@@ -109,6 +109,8 @@ pub struct VClock {
     pub keep_threshold: Cell<u64>,
     /// the execution limit of the run (to recognise the check that fires)
     pub limit: Cell<u64>,
+    /// the instruction ordinal at which the first entry observed its deadline (timeout fired)
+    pub fired_at_ordinal: Cell<Option<u64>>,
     pub entries_total: Cell<u64>,
 }
 
@@ -136,6 +138,7 @@ impl Default for VClock {
             max_records: Cell::new(256),
             keep_threshold: Cell::new(u64::MAX),
             limit: Cell::new(u64::MAX),
+            fired_at_ordinal: Cell::new(None),
             entries_total: Cell::new(0),
         }
     }
@@ -162,6 +165,7 @@ impl VClock {
         self.equal_reads.set(0);
         self.last_read.set(u64::MAX);
         self.entries_total.set(0);
+        self.fired_at_ordinal.set(None);
         koto::runtime::verif::reset_entry_depth();
     }
 
@@ -245,6 +249,9 @@ impl VerifSim for VClock {
                 l.rec.first_reading = reading;
             } else if reading >= l.rec.first_reading.saturating_add(self.limit.get()) {
                 l.rec.deadline_seen = true;
+                if self.fired_at_ordinal.get().is_none() {
+                    self.fired_at_ordinal.set(Some(self.ordinal.get()));
+                }
             }
             if l.rec.clock_reads > 1 {
                 let mut cur = std::mem::take(&mut l.cur);
